@@ -696,13 +696,13 @@ func runJSON(c runCfg, prop string) error {
 				st, extra = "builderr", " detail="+dialect.Hx(p.BuildErr)
 			}
 			impl[i] = "SKIP gen=" + st + extra
-		case "E", "U", "EO":
+		case "E", "U", "EO", "UO":
 			p := byName[f[1]]
 			if p == nil || !p.OK() {
 				impl[i] = "SKIP pkg-unavailable"
 				continue
 			}
-			verb := map[string]string{"E": "RT", "U": "DEC", "EO": "RT"}[f[0]]
+			verb := map[string]string{"E": "RT", "U": "DEC", "EO": "RT", "UO": "DEC"}[f[0]]
 			send = append(send, f[1]+" "+verb+" "+f[2]+" "+f[3])
 			idx = append(idx, i)
 		default:
@@ -806,7 +806,78 @@ func jsonCases(c runCfg, prop string) ([]*scratch.Pkg, []string, map[string]inte
 			}
 			on := fmt.Sprintf("One%d", oi)
 			comps = append(comps, dialect.Prop{Name: on, Schema: one})
-			oneOfLines = append(oneOfLines, "JO "+pkg+" "+on)
+			// the model's description: discriminator key, the cases of the generated switch (variant index: accepted names), the variants' schemas
+			var vmodels, caseStrs []string
+			for vi := range vnames {
+				vs := &JS{Kind: "obj", Members: []JM{
+					{Name: fmt.Sprintf("k%d", vi), Req: true, S: &JS{Kind: "str"}},
+					{Name: "kind", Req: true, S: &JS{Kind: "str"}},
+					{Name: "z", Req: false, S: &JS{Kind: "int", Bits: 64}}}}
+				vmodels = append(vmodels, vs.Model())
+				var hs []string
+				for _, a := range accepted[vi] {
+					hs = append(hs, dialect.Hx(a))
+				}
+				caseStrs = append(caseStrs, strconv.Itoa(vi)+":"+strings.Join(hs, "."))
+			}
+			keyStr, casesStr := "-", "-"
+			if one.DiscProp != "" {
+				keyStr, casesStr = dialect.Hx(one.DiscProp), strings.Join(caseStrs, ",")
+			}
+			oneOfLines = append(oneOfLines, "JO "+pkg+" "+on+" "+keyStr+" "+casesStr+" "+strings.Join(vmodels, "+"))
+			// documents for the decoder: a valid document of a random variant, then single changes of it
+			for k := 0; k < nval; k++ {
+				vi := rng.Intn(nv)
+				kind := accepted[vi][rng.Intn(len(accepted[vi]))]
+				if oi == 0 {
+					kind = jStrings[rng.Intn(len(jStrings))]
+				}
+				doc := map[string]interface{}{fmt.Sprintf("k%d", vi): jStrings[rng.Intn(len(jStrings))], "kind": kind}
+				if rng.Intn(2) == 0 {
+					doc["z"] = jInts[rng.Intn(len(jInts))]
+				}
+				exp := "valid"
+				switch rng.Intn(10) {
+				case 0:
+					delete(doc, "kind")
+					exp = "nokind"
+				case 1:
+					doc["kind"] = "nobody"
+					exp = "unknownkind"
+				case 2:
+					other := (vi + 1) % nv
+					doc["kind"] = accepted[other][len(accepted[other])-1]
+					exp = "otherkind"
+				case 3:
+					doc[fmt.Sprintf("k%d", (vi+1)%nv)] = "also"
+					exp = "twovariants"
+				case 4:
+					doc["kind"] = []interface{}{5, nil, true, map[string]interface{}{}}[rng.Intn(4)]
+					exp = "kindtype"
+					if doc["kind"] == nil {
+						// (encoding/json leaves a string untouched on null: with a discriminator the name is "", without one the
+						//  variant's own `kind` property takes null like any other property does — outside C08's strictness claim)
+						exp = "kindnull"
+					}
+				case 5:
+					delete(doc, fmt.Sprintf("k%d", vi))
+					exp = "norequired"
+				case 6:
+					doc["z"] = "seven"
+					exp = "wrongtype"
+				}
+				text := marshalDoc(doc, rng)
+				if r := rng.Intn(40); r < 4 {
+					text = []string{"null", "[]", `"x"`, "5"}[r]
+					exp = "notobject"
+				} else if r == 4 && one.DiscProp != "" {
+					// the discriminator twice: the last one decides
+					text = `{"kind":"nobody",` + text[1:]
+					exp = "dupkind"
+				}
+				oneOfLines = append(oneOfLines, "UO "+pkg+" "+on+" "+dialect.Hx(text)+" #exp="+exp)
+				nU++
+			}
 			for k := 0; k < nval; k++ {
 				vi := rng.Intn(nv)
 				kind := accepted[vi][rng.Intn(len(accepted[vi]))]
